@@ -1,1 +1,124 @@
-/-! C34 — property theorems (stub: nothing proved yet). -/
+import B6.Model.DouglasPeucker
+import B6.Lemmas.DouglasPeucker
+/-!
+# C34 — Line simplification matches the recursive reference
+
+Theorems about `B6.Model.DouglasPeucker` (model of renderer/simplify.go after fix
+C34-negative-tolerance).  They hold for **every** point list, **every** tolerance and **every**
+`Metric` (distance function, `>` relation, zero) — no order axioms are used, so NaN distances / a NaN,
+infinite or negative tolerance are covered.  The stack invariant is `Lemmas.DouglasPeucker.core`.
+-/
+namespace B6.Props.C34
+open B6.Model.DouglasPeucker B6.Lemmas.DouglasPeucker
+
+variable {P D : Type}
+
+/-- Shape of a run on a non-empty line: both algorithms return the same `L ++ [last]`, `L` starts with
+the first point and (for ≥ 2 points) is a subsequence of the line without its last point. -/
+theorem dp_run (m : Metric P D) (pts : List P) (eps : D) (hne : pts ≠ []) :
+    ∃ (L : List P) (z : P), pts.getLast? = some z ∧
+      douglasPeucker m pts eps = .ok (L ++ [z]) ∧ reference m pts eps = .ok (L ++ [z]) ∧
+      L.head? = pts.head? ∧ (2 ≤ pts.length → L.Sublist pts.dropLast) := by
+  obtain ⟨L, z, c, E⟩ := core m eps pts.length pts [] [] rfl hne
+  simp only [List.nil_append, List.append_nil, List.length_nil] at E
+  refine ⟨L, z, E.last, ?_, ?_, E.head, E.sub⟩
+  · have hc := E.cost
+    have hl := E.loop (2 * pts.length + 1 - c) [] []
+    have e : 2 * pts.length + 1 - c + c = 2 * pts.length + 1 := by omega
+    rw [e, Nat.zero_add] at hl
+    unfold douglasPeucker
+    rw [hl]
+    simp only [loopF, List.nil_append, E.last]
+  · exact E.ref (pts.length + 1) (by omega)
+
+/-- **The iterative version returns what the recursive reference returns** — every line with at least two
+points (in fact one), every tolerance. -/
+theorem dp_iter_eq_ref (m : Metric P D) (pts : List P) (eps : D) (h : 2 ≤ pts.length) :
+    simplify m pts eps = reference m pts eps := by
+  have hne : pts ≠ [] := by intro e; subst e; simp at h
+  obtain ⟨L, z, _, hi, hr, _, _⟩ := dp_run m pts eps hne
+  have : ¬ pts.length < 2 := by omega
+  simp only [simplify, this, if_false, hi, hr]
+
+/-- the unexported loop function agrees with the reference already from one point on -/
+theorem dp_loop_eq_ref (m : Metric P D) (pts : List P) (eps : D) (h : 1 ≤ pts.length) :
+    douglasPeucker m pts eps = reference m pts eps := by
+  have hne : pts ≠ [] := by intro e; subst e; simp at h
+  obtain ⟨L, z, _, hi, hr, _, _⟩ := dp_run m pts eps hne
+  rw [hi, hr]
+
+/-- **Termination and no panic**: on every non-empty line both return a value within the fuel the model
+hands in (`2·len+1` loop iterations; recursion depth `len+1`). -/
+theorem dp_returns (m : Metric P D) (pts : List P) (eps : D) (h : 1 ≤ pts.length) :
+    ∃ r, simplify m pts eps = .ok r ∧ ∃ r', reference m pts eps = .ok r' := by
+  have hne : pts ≠ [] := by intro e; subst e; simp at h
+  obtain ⟨L, z, hz, hi, hr, hh, _⟩ := dp_run m pts eps hne
+  by_cases h2 : pts.length < 2
+  · cases pts with
+    | nil => exact absurd rfl hne
+    | cons a t => exact ⟨[a], by simp only [simplify, h2, if_true, List.head?_cons], _, hr⟩
+  · exact ⟨L ++ [z], by simp only [simplify, h2, if_false, hi], _, hr⟩
+
+/-- neither ever runs out of fuel — also on the empty line (where Go panics with index out of range) -/
+theorem dp_terminates (m : Metric P D) (pts : List P) (eps : D) :
+    simplify m pts eps ≠ .nofuel ∧ reference m pts eps ≠ .nofuel := by
+  cases pts with
+  | nil => constructor <;> simp [simplify, reference, refF, refScan]
+  | cons a t =>
+    obtain ⟨r, h1, r', h2⟩ := dp_returns m (a :: t) eps (by simp)
+    rw [h1, h2]; constructor <;> simp
+
+/-- **The first and the last point are kept.** -/
+theorem dp_keeps_ends (m : Metric P D) (pts : List P) (eps : D) (h : 2 ≤ pts.length)
+    (r : List P) (hr : simplify m pts eps = .ok r) :
+    r.head? = pts.head? ∧ r.getLast? = pts.getLast? := by
+  have hne : pts ≠ [] := by intro e; subst e; simp at h
+  obtain ⟨L, z, hz, hi, _, hh, _⟩ := dp_run m pts eps hne
+  have : ¬ pts.length < 2 := by omega
+  simp only [simplify, this, if_false, hi, Res.ok.injEq] at hr
+  subst hr
+  constructor
+  · cases L with
+    | nil => cases pts with
+      | nil => exact absurd rfl hne
+      | cons a t => simp at hh
+    | cons x xs => simpa using hh
+  · simp [hz]
+
+/-- **The result is a subsequence of the input** (`List.Sublist`: same order, nothing invented). -/
+theorem dp_subsequence (m : Metric P D) (pts : List P) (eps : D)
+    (r : List P) (hr : simplify m pts eps = .ok r) : r.Sublist pts := by
+  by_cases h2 : pts.length < 2
+  · cases pts with
+    | nil => simp [simplify] at hr
+    | cons a t =>
+      simp only [simplify, h2, if_true, List.head?_cons, Res.ok.injEq] at hr
+      subst hr
+      simp
+  · have hne : pts ≠ [] := by intro e; subst e; simp at h2
+    obtain ⟨L, z, hz, hi, _, _, hs⟩ := dp_run m pts eps hne
+    simp only [simplify, h2, if_false, hi, Res.ok.injEq] at hr
+    subst hr
+    have hd : pts = pts.dropLast ++ [z] := by
+      have hg : z = pts.getLast hne := by
+        rw [List.getLast?_eq_some_getLast hne] at hz
+        exact (Option.some.inj hz).symm
+      rw [hg]
+      exact (List.dropLast_concat_getLast hne).symm
+    rw [hd]
+    exact List.Sublist.append (hs (by omega)) (List.Sublist.refl _)
+
+/-! ### non-vacuity: a concrete metric on `Nat` "points" where everything computes -/
+
+/-- distance of point `p` to any chord = `p % 4`; `>` on `Nat` -/
+def exMetric : Metric Nat Nat := { dist := fun _ _ p => p % 4, gt := fun x y => decide (x > y), zero := 0 }
+
+example : (2 : Nat) ≤ [10, 11, 13, 14, 15, 17, 18].length := by decide
+example : simplify exMetric [10, 11, 13, 14, 15, 17, 18] 1 = .ok [10, 11, 15, 18] := by decide
+example : reference exMetric [10, 11, 13, 14, 15, 17, 18] 1 = .ok [10, 11, 15, 18] := by decide
+-- first maximum wins a tie (11 and 15 both at distance 3): the split is at 11
+example : refScan exMetric [10, 11, 13, 14, 15, 17, 18] = (3, 1) := by decide
+-- a "negative" tolerance (here: a `gt` that always holds) terminates and keeps what tolerance 0 keeps
+example : simplify { exMetric with gt := fun x y => decide (x > y) || true } [1, 2, 3] 0 = .ok [1, 2, 3] := by decide
+
+end B6.Props.C34
